@@ -90,7 +90,7 @@ func (c15) Build(tier string, seed uint64) []any {
 	}
 	nRand := 60
 	if th {
-		nRand = 1200
+		nRand = 8000
 	}
 	for i := 0; i < nRand; i++ {
 		r := gen.Sub(seed, "C15", "rand", i)
